@@ -1,6 +1,8 @@
 package main
 
 import (
+	"math/rand"
+
 	"github.com/evolbioinfo/gotree/tree"
 )
 
@@ -34,6 +36,64 @@ func c14matrix(mat [][]float64, tips []*tree.Node) (*Sexp, *Sexp) {
 	return names, m
 }
 
+// c14pre puts the tree in a "used" state before the call under test: the steps of the case are
+// applied in order and nothing is re-indexed afterwards.
+//
+//	reinit     ReinitIndexes()
+//	matrix     a first ToDistanceMatrix (brlen)
+//	matrixnone a first ToDistanceMatrix (none)
+//	swap       Node.SetName: the names of the first and last tips of Tips() are exchanged
+//	renamehi   Node.SetName: the first tip gets a name that sorts after all others
+//	renamelo   Node.SetName: the last tip gets a name that sorts before all others
+//	reroot     Reroot on the last inner node of Nodes()
+//	rotate     RotateInternalNodes (seeded)
+//
+// It returns the dump of the tree as it is then: the model and the oracle judge the call on it.
+func c14pre(t *tree.Tree, c *Sexp) (*Sexp, *Sexp) {
+	for _, st := range c.StrList("pre") {
+		switch st {
+		case "reinit":
+			t.ReinitIndexes()
+		case "matrix":
+			t.ToDistanceMatrix(tree.DISTANCE_METRIC_BRLEN)
+		case "matrixnone":
+			t.ToDistanceMatrix(tree.DISTANCE_METRIC_NONE)
+		case "swap":
+			tips := t.Tips()
+			if len(tips) >= 2 {
+				a, b := tips[0], tips[len(tips)-1]
+				na, nb := a.Name(), b.Name()
+				a.SetName(nb)
+				b.SetName(na)
+			}
+		case "renamehi":
+			tips := t.Tips()
+			if len(tips) >= 1 {
+				tips[0].SetName("zz_" + tips[0].Name())
+			}
+		case "renamelo":
+			tips := t.Tips()
+			if len(tips) >= 1 {
+				tips[len(tips)-1].SetName("A_" + tips[len(tips)-1].Name())
+			}
+		case "reroot":
+			var target *tree.Node
+			for _, n := range t.Nodes() {
+				if n != t.Root() && n.Nneigh() >= 2 {
+					target = n
+				}
+			}
+			if target != nil {
+				t.Reroot(target)
+			}
+		case "rotate":
+			rand.Seed(int64(c.Int("seed")) + 1)
+			t.RotateInternalNodes()
+		}
+	}
+	return ObserveTree(t)
+}
+
 // cases:
 //
 //	((op matrix) (metric brlen|boot|none) (tree T))   obs ((names (...)) (matrix ((q ...) ...)))
@@ -51,20 +111,26 @@ func c14(c *Sexp) *Sexp {
 		if err != nil {
 			return L(KV("panic", A("build: "+err.Error())))
 		}
+		used, audit := c14pre(t, c)
 		mat, tips := t.ToDistanceMatrix(c14metric(c.Str("metric")))
 		names, m := c14matrix(mat, tips)
-		return L(KV("names", names), KV("matrix", m))
+		return L(KV("used", used), KV("audit", audit), KV("names", names), KV("matrix", m))
 	case "avg":
 		tl := c.Get("trees")
 		if tl == nil || !tl.IsList {
 			return L(KV("panic", A("no trees")))
 		}
 		trees := make([]*tree.Tree, 0, len(tl.List))
+		usedl := L()
+		audits := L()
 		for _, s := range tl.List {
 			t, err := BuildTree(s)
 			if err != nil {
 				return L(KV("panic", A("build: "+err.Error())))
 			}
+			d, a := c14pre(t, c)
+			usedl.List = append(usedl.List, d)
+			audits.List = append(audits.List, a.List...)
 			trees = append(trees, t)
 		}
 		// as utils.ReadMultiTrees: a producer goroutine and a channel closed at the end
@@ -75,15 +141,16 @@ func c14(c *Sexp) *Sexp {
 		close(ch)
 		mat, tips, err := tree.AvgDistanceMatrix(c14metric(c.Str("metric")), ch)
 		if err != nil {
-			return L(KV("err", A(errStr(err))))
+			return L(KV("used", usedl), KV("audit", audits), KV("err", A(errStr(err))))
 		}
 		names, m := c14matrix(mat, tips)
-		return L(KV("err", A("")), KV("names", names), KV("matrix", m))
+		return L(KV("used", usedl), KV("audit", audits), KV("err", A("")), KV("names", names), KV("matrix", m))
 	case "cut":
 		t, err := BuildTree(c.Get("tree"))
 		if err != nil {
 			return L(KV("panic", A("build: "+err.Error())))
 		}
+		used, audit := c14pre(t, c)
 		bags, cerr := t.CutEdgesMaxLength(c.Float("maxlen"))
 		bl := L()
 		for _, b := range bags {
@@ -93,7 +160,7 @@ func c14(c *Sexp) *Sexp {
 			}
 			bl.List = append(bl.List, g)
 		}
-		return L(KV("err", A(errStr(cerr))), KV("bags", bl))
+		return L(KV("used", used), KV("audit", audit), KV("err", A(errStr(cerr))), KV("bags", bl))
 	}
 	return L(KV("panic", A("unknown op")))
 }
